@@ -526,7 +526,11 @@ func TestDriver(t *testing.T) {
 		sh[i] = &shard{tw: tw}
 	}
 	base := hx.Seed()*100000 + int64(len(mode))*1000
-	for hi := 0; hi < nHist; hi++ {
+	directed := 0
+	if mode == "core" && os.Getenv("VERIF_ONLY_SEED") == "" {
+		directed = 1 // plus the directed heavier-but-shorter history
+	}
+	for hi := 0; hi < nHist+directed; hi++ {
 		seed := base + int64(hi)
 		if rs := os.Getenv("VERIF_ONLY_SEED"); rs != "" {
 			fmt.Sscan(rs, &seed)
@@ -535,6 +539,11 @@ func TestDriver(t *testing.T) {
 		reg := [][3]uint64{{1000, 1010, 1020}, {8, 14, 18}, {1, 1, 1}, {5, 6, 7}}[rng.Intn(4)]
 		spec := TreeSpec{Seed: seed, Allow: reg[0], Require: reg[1], Final: reg[2], Blocks: minB + rng.Intn(maxB-minB+1), Warmup: 3,
 			MaxLeaves: 4, BadBlocks: 4, OpsPerBlk: 3, ForkProb: 0.18, UniqueWindows: mode != "ledger"}
+		if hi >= nHist {
+			// total work diverging from chain length: the tip must move to the sufficiently heavier
+			// branch although it is SHORTER (the weight gate compares work, not height)
+			spec = TreeSpec{Seed: seed, HeavyShort: [2]int{165, 150}}
+		}
 		tr := spec.Build()
 		tj, nm := tr.Abstract()
 		s := sh[hi%shards]
@@ -560,6 +569,9 @@ func TestDriver(t *testing.T) {
 			order = append(order, id)
 		}
 		for i := range order {
+			if hi >= nHist {
+				break // directed history: the long branch first, then the short heavy one, in order
+			}
 			if rng.Float64() < 0.12 && i+1 < len(order) {
 				order[i], order[i+1] = order[i+1], order[i] // child before parent
 			}
